@@ -540,6 +540,7 @@ pub fn c04_check(input: &[u8]) -> Vec<Fail> {
 pub fn c05_check_locale_value(what: &str, l: &Locale) -> Vec<Fail> {
     let mut out = vec![];
     let s = l.to_string();
+    crate::stream::hostile_neighbour(s.as_bytes());
     match guard(|| s.parse::<Locale>()) {
         Err(p) => out.push(fail("panic", p)),
         Ok(Err(e)) => out.push(fail("locale-reparse-rejected", format!("{}: to_string() = {:?} does not parse back: {:?}", what, s, e))),
@@ -572,6 +573,7 @@ pub fn c05_check_langid_value(what: &str, li: &LanguageIdentifier) -> Vec<Fail> 
     use unic_langid_impl::subtags::{Language, Region, Script, Variant};
     let mut out = vec![];
     let s = li.to_string();
+    crate::stream::hostile_neighbour(s.as_bytes());
     match guard(|| s.parse::<LanguageIdentifier>()) {
         Err(p) => out.push(fail("panic", p)),
         Ok(Err(e)) => out.push(fail("langid-reparse-rejected", format!("{}: to_string() = {:?} does not parse back: {:?}", what, s, e))),
